@@ -99,6 +99,8 @@ type loopInfo struct {
 
 type Enc struct {
 	curClause *SExpr
+	retHook func(st *State, res *Val)
+	outerSyms map[string]string
 	privMemo map[*ssa.Alloc]bool
 	w        *World
 	s        *Script
@@ -1026,6 +1028,9 @@ func (e *Enc) runBody(fr *Frame, init *State) (*State, *Val) {
 					}
 				}
 				e.flush(st)
+				if fr.top && e.retHook != nil && !st.dead() {
+					e.retHook(st.clone(), res)
+				}
 				rets = append(rets, retPoint{st, res})
 			case *ssa.Panic:
 				st.reach = "false"
